@@ -231,6 +231,7 @@ let storage_handlers = [
   ("trace", (function ["on"] -> emit "trace on" | ["off"] -> emit "trace off" | _ -> emit "*"));
   ("tracecheck", (fun _ -> emit "tracecheck ok"));
   ("snapcheck", (fun _ -> emit "snapcheck ok"));
+  ("par", (fun _ -> tainted_ref := true; hard_taint := true; emit "*"));
   ("cancel", (fun _ -> tainted_ref := true; hard_taint := true; emit "*"));
   ("fail", (fun _ -> tainted_ref := true; hard_taint := true; emit "fail armed"));  (* the L3 model has no faults: wildcard from here *)
   ("clearfail", (fun _ -> emit "clearfail"));
